@@ -160,11 +160,13 @@ fn c_h() {
     assert!(h(x, &key[..8 * k], k, offset) == spec_h(x, &key[..8 * k], k, offset));
 }
 
+// (q-table look-ups: z3 2-3 s, cadical 60-90 s)
 // g_func on every well-formed state (one obligation per value of start = 4 - k): the key-dependent S-boxes followed by
 // the MDS matrix == h(X, S)
 macro_rules! g_func_ob {
     ($name:ident, $start:expr) => {
         #[kani::proof]
+        #[kani::solver(z3)]
         #[kani::stub(sbox, spec_sbox)]
         #[kani::stub(mds_column_mult, spec_mds_column_mult)]
         #[kani::unwind(10)]
@@ -175,11 +177,11 @@ macro_rules! g_func_ob {
         }
     };
 }
-// @ob name=c_g_func_256 props=C08,C20 fn=twofish::Twofish::g_func uses=c_sbox,c_mds_column_mult timeout=600
+// @ob name=c_g_func_256 props=C08,C20 solver=z3 fn=twofish::Twofish::g_func uses=c_sbox,c_mds_column_mult timeout=600
 g_func_ob!(c_g_func_256, 0);
-// @ob name=c_g_func_192 props=C08,C20 fn=twofish::Twofish::g_func uses=c_sbox,c_mds_column_mult timeout=600
+// @ob name=c_g_func_192 props=C08,C20 solver=z3 fn=twofish::Twofish::g_func uses=c_sbox,c_mds_column_mult timeout=600
 g_func_ob!(c_g_func_192, 1);
-// @ob name=c_g_func_128 props=C08,C20 fn=twofish::Twofish::g_func uses=c_sbox,c_mds_column_mult timeout=600
+// @ob name=c_g_func_128 props=C08,C20 solver=z3 fn=twofish::Twofish::g_func uses=c_sbox,c_mds_column_mult timeout=600
 g_func_ob!(c_g_func_128, 2);
 
 // h and rs_mult as scheduled uninterpreted functions (see sched_uf.inc), shared by the real callee and the reference's:
